@@ -14,6 +14,7 @@ MODELS = [
     'llvm.threadlocal.address: base of the current simulated thread\'s instance',
     'std::sys::thread_local::destructors::register: records the destructor for verif_thread_exit',
     'futex/park/yield/sleep: BLOCKING event',
+    'std::panicking::panic_count::GLOBAL_PANIC_COUNT (external static): reads as 0 (no panic in progress)',
     'verif_nondet_u64/assume/assert/cover/mark/set_thread/thread_exit/user_panic: harness interface',
 ]
 
@@ -360,7 +361,11 @@ def verif_call(eng, st, fr, ins, name, args):
     if name == 'verif_cover':
         ident = args[0]
         if ident not in st.covers:
-            st.covers[ident] = tuple(st.pc)
+            st.covers[ident] = [tuple(st.pc)]
+        return None
+    if name == 'verif_merge':
+        st.status = 'parked'
+        st.park_key = (id(ins), len(st.frames))
         return None
     if name == 'verif_mark':
         if eng.mark_hook is not None:
